@@ -31,6 +31,9 @@ type observation struct {
 	op      int    // history operation in flight (-1 Create, len(ops) final Close)
 	hook    bool   // taken at the top of Fsync/Fdatasync
 	syncIno uint64 // inode being synced (0: none)
+	// durable: everything this observation holds is on stable storage (the first observation
+	// of a second generation: the directory as the crash + recovery left it)
+	durable bool
 	files   map[uint64]*fobs
 	// acknowledgement levels in force from this observation on
 	ackRecs          int
@@ -120,6 +123,7 @@ type image struct {
 	files   map[string][]byte
 	desc    string // deterministic description of the choice (replay key)
 	mixed   bool   // differs from both the all-old and the all-new image
+	allOld  bool   // every sector holds its durable content: nothing unsynced reached the disk
 	short   bool   // a file is shorter than its newest version (size-follows-data variant)
 	sectors int    // number of undetermined sectors at this crash point
 }
@@ -171,7 +175,7 @@ func (r *recorder) choiceFor(ino uint64, k int, path string) *fileChoice {
 	from := 0
 	for j := k - 1; j >= 0; j-- {
 		o := r.obs[j]
-		if o.hook && o.syncIno == ino {
+		if (o.hook && o.syncIno == ino) || o.durable {
 			if f := o.files[ino]; f != nil {
 				base = f.data
 			}
@@ -255,7 +259,10 @@ func (fc *fileChoice) build(pick []int, zfill bool) []byte {
 // instant after observation k-1 (all syncs hooked before k have completed) and not later
 // than observation k (a sync hooked at k may be in progress).
 // maxBits bounds the exhaustive part: with more undetermined sectors, all subsets of the
-// last maxBits sectors are combined with {all, none} of the earlier ones.
+// last maxBits sectors are combined with {all, none} of the earlier ones, and the interval
+// patterns over all undetermined sectors are added (see intervalPicks): in particular every
+// "the first i sectors of the unsynced write are lost, the rest persisted" image, which the
+// tied {all, none} prefix alone only produces for i >= (sectors - maxBits).
 func (r *recorder) crashImages(k int, maxBits int) (imgs []*image, capped bool) {
 	cur := r.obs[k]
 	prevNS := cur
@@ -282,7 +289,6 @@ func (r *recorder) crashImages(k int, maxBits int) (imgs []*image, capped bool) 
 			totalVary += len(fc.vary)
 		}
 		// flatten the varying sectors of all files into one odometer
-		type slot struct{ f, i, n int }
 		var slots []slot
 		for fi, fc := range fcs {
 			for i, s := range fc.vary {
@@ -291,8 +297,9 @@ func (r *recorder) crashImages(k int, maxBits int) (imgs []*image, capped bool) 
 		}
 		free := slots
 		var tied []slot // earlier sectors: all-base or all-newest together
+		nsCapped := false
 		if len(slots) > maxBits {
-			capped = true
+			capped, nsCapped = true, true
 			tied = slots[:len(slots)-maxBits]
 			free = slots[len(slots)-maxBits:]
 		}
@@ -303,6 +310,53 @@ func (r *recorder) crashImages(k int, maxBits int) (imgs []*image, capped bool) 
 		picks := make([][]int, len(fcs))
 		for fi, fc := range fcs {
 			picks[fi] = make([]int, len(fc.vary))
+		}
+		emitted := map[string]bool{}
+		// emit builds the image(s) of the current pick vector (once per distinct vector)
+		emit := func() {
+			allOld, allNew := true, true
+			for _, s := range slots {
+				if picks[s.f][s.i] != 0 {
+					allOld = false
+				}
+				if picks[s.f][s.i] != s.n-1 {
+					allNew = false
+				}
+			}
+			for _, zfill := range []bool{false, true} {
+				im := &image{files: map[string][]byte{}, sectors: totalVary}
+				var sb strings.Builder
+				fmt.Fprintf(&sb, "k=%d ns=%d/%d z=%v", k, nsi, len(nsList), zfill)
+				shortAny := false
+				for fi, fc := range fcs {
+					if len(fc.vary) > 0 {
+						fmt.Fprintf(&sb, " %s:", fc.path)
+						for i, s := range fc.vary {
+							fmt.Fprintf(&sb, "%d=%d,", s, picks[fi][i])
+						}
+					}
+				}
+				desc := sb.String()
+				if emitted[desc] {
+					continue
+				}
+				emitted[desc] = true
+				if zfill && !anyShort(fcs, picks) {
+					continue // identical to the size-follows-data variant
+				}
+				for fi, fc := range fcs {
+					b := fc.build(picks[fi], zfill)
+					if len(b) < fc.maxSize {
+						shortAny = true
+					}
+					im.files[fc.path] = b
+				}
+				im.short = shortAny
+				im.mixed = !allOld && !allNew
+				im.allOld = allOld
+				im.desc = desc
+				imgs = append(imgs, im)
+			}
 		}
 		for tm := 0; tm < tiedModes; tm++ {
 			for _, t := range tied {
@@ -317,41 +371,7 @@ func (r *recorder) crashImages(k int, maxBits int) (imgs []*image, capped bool) 
 				for j, s := range free {
 					picks[s.f][s.i] = idx[j]
 				}
-				allOld, allNew := true, true
-				for _, s := range slots {
-					if picks[s.f][s.i] != 0 {
-						allOld = false
-					}
-					if picks[s.f][s.i] != s.n-1 {
-						allNew = false
-					}
-				}
-				for _, zfill := range []bool{false, true} {
-					im := &image{files: map[string][]byte{}, sectors: totalVary}
-					var sb strings.Builder
-					fmt.Fprintf(&sb, "k=%d ns=%d/%d z=%v", k, nsi, len(nsList), zfill)
-					shortAny := false
-					for fi, fc := range fcs {
-						b := fc.build(picks[fi], zfill)
-						if len(b) < fc.maxSize {
-							shortAny = true
-						}
-						im.files[fc.path] = b
-						if len(fc.vary) > 0 {
-							fmt.Fprintf(&sb, " %s:", fc.path)
-							for i, s := range fc.vary {
-								fmt.Fprintf(&sb, "%d=%d,", s, picks[fi][i])
-							}
-						}
-					}
-					if zfill && !anyShort(fcs, picks) {
-						continue // identical to the size-follows-data variant
-					}
-					im.short = shortAny
-					im.mixed = !allOld && !allNew
-					im.desc = sb.String()
-					imgs = append(imgs, im)
-				}
+				emit()
 				// next
 				j := len(idx) - 1
 				for ; j >= 0; j-- {
@@ -366,8 +386,41 @@ func (r *recorder) crashImages(k int, maxBits int) (imgs []*image, capped bool) 
 				}
 			}
 		}
+		if nsCapped {
+			intervalPicks(slots, picks, emit)
+		}
 	}
 	return imgs, capped
+}
+
+// slot is one undetermined sector of the flattened (file order, then offset order) sequence.
+type slot struct{ f, i, n int }
+
+// intervalPicks enumerates the two interval families over the undetermined sectors in file
+// offset order (old = durable base, new = newest observed content):
+//
+//	lost run: sectors [i,j) old, all others new   (a hole; i = 0: the LEADING sectors of the
+//	          unsynced write are lost while the later ones persisted; j = n: a lost suffix)
+//	kept run: sectors [i,j) new, all others old   (only a middle part persisted)
+//
+// for every 0 <= i < j <= n: n(n+1) pick vectors instead of 2^n.
+func intervalPicks(slots []slot, picks [][]int, emit func()) {
+	n := len(slots)
+	for fam := 0; fam < 2; fam++ {
+		for i := 0; i < n; i++ {
+			for j := i + 1; j <= n; j++ {
+				for x, s := range slots {
+					in := x >= i && x < j
+					if in == (fam == 0) {
+						picks[s.f][s.i] = 0
+					} else {
+						picks[s.f][s.i] = s.n - 1
+					}
+				}
+				emit()
+			}
+		}
+	}
 }
 
 func anyShort(fcs []*fileChoice, picks [][]int) bool {
